@@ -10,4 +10,6 @@ trap 'rm -rf "$TMPOUT"' EXIT
 RC386=$?
 # liveness self-test of the rules serving this property (informational; scratch copies under /tmp, removed afterwards)
 python3 "$VERIF/tools/selftest.py" --prop "$ID" --json "$TMPOUT/liveness.json" -j 8 > "$TMPOUT/liveness.log" 2>&1 || true
-"$VERIF/bin/wucheck" -prop "$ID" -tier thorough -repo "$REPO" -verif "$VERIF" -out "$OUT" -also "386:$RC386:$TMPOUT/386.log" -embed "liveness:$TMPOUT/liveness.json"
+# the seeded property-breaking changes kept for this property: does the check of this property report them? (informational)
+python3 "$VERIF/tools/seedlive.py" --prop "$ID" --json "$TMPOUT/seeds.json" -j 4 > "$TMPOUT/seeds.log" 2>&1 || true
+"$VERIF/bin/wucheck" -prop "$ID" -tier thorough -repo "$REPO" -verif "$VERIF" -out "$OUT" -also "386:$RC386:$TMPOUT/386.log" -embed "liveness:$TMPOUT/liveness.json,seeded_changes:$TMPOUT/seeds.json"
